@@ -10,11 +10,14 @@ import (
 	"context"
 	"errors"
 	"fmt"
+	"github.com/0xReLogic/Helios/internal/zzverif/vh"
 	"io"
 	"log"
 	"net"
 	"net/http"
 	"net/http/httptest"
+	"net/http/httptrace"
+	"net/textproto"
 	"reflect"
 	"sort"
 	"strings"
@@ -85,6 +88,10 @@ func (scriptedTimeout) Error() string {
 }
 func (scriptedTimeout) Timeout() bool   { return true }
 func (scriptedTimeout) Temporary() bool { return true }
+
+// like net/http's own timeout error (http.Client.Timeout, response-header timeout), which
+// answers true to errors.Is(err, context.DeadlineExceeded)
+func (scriptedTimeout) Is(target error) bool { return target == context.DeadlineExceeded }
 
 // transportFault maps a scripted fault mode to the transport error it stands for (nil: not a
 // transport-level fault).
@@ -186,6 +193,14 @@ func (rt *stubRT) RoundTrip(req *http.Request) (*http.Response, error) {
 	mode := st.mode
 	if m := req.Header.Get("X-Verif-Mode"); m != "" {
 		mode = m
+	}
+	if strings.HasPrefix(mode, "103+") {
+		// an interim response first, delivered the way a real transport does (client trace hook,
+		// which httputil.ReverseProxy installs to forward 1xx responses)
+		if tr := httptrace.ContextClientTrace(req.Context()); tr != nil && tr.Got1xxResponse != nil {
+			_ = tr.Got1xxResponse(103, textproto.MIMEHeader{"Link": {"</s.css>; rel=preload"}})
+		}
+		mode = mode[len("103+"):]
 	}
 	switch mode {
 	case "404":
@@ -337,6 +352,13 @@ func (k *kit) requestWith(client string, h http.Handler, edit func(*http.Request
 // (concurrent scenarios): the mode travels in a request header the stub honours.
 func (k *kit) requestMode(client, mode string) reqResult {
 	return k.requestWith(client, nil, func(r *http.Request) { r.Header.Set("X-Verif-Mode", mode) })
+}
+
+// novel renders state of the balancer that the hand-written fingerprints do not know about
+// (fields a change added to the structs of the code under test); empty on the tree the list of
+// known fields was generated from.
+func (k *kit) novel() string {
+	return "|novel:" + vh.FingerprintNovel(30*time.Second, knownFields, k.lb)
 }
 
 func (k *kit) requestCancelled(client string) reqResult {
